@@ -2,6 +2,7 @@ package gen
 
 import (
 	"google.golang.org/protobuf/encoding/protowire"
+	"google.golang.org/protobuf/internal/encoding/messageset"
 	"google.golang.org/protobuf/reflect/protoreflect"
 	"google.golang.org/protobuf/zverifsim/sim"
 )
@@ -169,12 +170,12 @@ func (m *WMsg) appendTo(b []byte) []byte {
 
 // DenormStats says which rewrites a denormalisation applied.
 type DenormStats struct {
-	PaddedVarints, SplitMessages, Reordered, NonContiguous, Repacked, Duplicated int
-	LazyTouched                                                                  int // rewrites inside or on a lazy field
+	PaddedVarints, SplitMessages, Reordered, NonContiguous, Repacked, Duplicated, WrongWireType int
+	LazyTouched                                                                                 int // rewrites inside or on a lazy field
 }
 
 func (d *DenormStats) Total() int {
-	return d.PaddedVarints + d.SplitMessages + d.Reordered + d.NonContiguous + d.Repacked + d.Duplicated
+	return d.PaddedVarints + d.SplitMessages + d.Reordered + d.NonContiguous + d.Repacked + d.Duplicated + d.WrongWireType
 }
 
 // Denormalise rewrites m in place into a legal but non-minimal encoding of
@@ -252,6 +253,44 @@ func denorm(r *sim.Rng, m *WMsg, intensity int, st *DenormStats, inLazy bool) {
 			denorm(r, nd.Group, intensity, st, lazyHere)
 		}
 		out = append(out, nd)
+	}
+	// an occurrence of a declared field number with a wire type the field does
+	// not accept: legal input, decoders must keep it as an unknown field
+	// (message-typed and lazy fields preferred: that is where validators and
+	// lazy indexes look at the tag)
+	if m.MD != nil && r.Intn(1000) < intensity {
+		fds := m.MD.Fields()
+		var cands []protoreflect.FieldDescriptor
+		for i := 0; i < fds.Len(); i++ {
+			fd := fds.Get(i)
+			if fd.Message() != nil && !fd.IsMap() && fd.Kind() == protoreflect.MessageKind {
+				cands = append(cands, fd)
+				if IsLazy(fd) {
+					cands = append(cands, fd, fd)
+				}
+			}
+		}
+		if len(cands) > 0 && !messageset.IsMessageSet(m.MD) {
+			fd := cands[r.Intn(len(cands))]
+			nd := &WNode{Num: fd.Number()} // FD stays nil: it is an unknown field as far as content goes
+			switch r.Intn(3) {
+			case 0:
+				nd.Typ = protowire.VarintType
+				nd.Varint = uint64(r.Intn(300))
+			case 1:
+				nd.Typ = protowire.Fixed32Type
+				nd.Fixed = r.Bytes(4)
+			default:
+				nd.Typ = protowire.Fixed64Type
+				nd.Fixed = r.Bytes(8)
+			}
+			pos := r.Intn(len(out) + 1)
+			out = append(out[:pos:pos], append([]*WNode{nd}, out[pos:]...)...)
+			st.WrongWireType++
+			if inLazy || IsLazy(fd) {
+				st.LazyTouched++
+			}
+		}
 	}
 	m.Fields = out
 	// reorder: move a random subset to the back, keeping relative order inside both parts
